@@ -9,9 +9,12 @@ package main
 import (
 	"bytes"
 	"crypto/ed25519"
+	"crypto/x509"
 	"encoding/base32"
+	"github.com/WICG/webpackage/go/signedexchange/certurl"
 	"go/ast"
 	"go/token"
+	"io"
 	"net/http"
 	"os"
 	"path/filepath"
@@ -101,6 +104,14 @@ func dynBytes(repo, name string) (b []byte, ok bool) {
 			return nil, false
 		}
 		return raw[ed25519.PublicKeySize:], true
+	case "p_cc_magic": // the text string that opens a written certificate chain
+		var buf bytes.Buffer
+		chain := certurl.CertChain{{Cert: &x509.Certificate{Raw: []byte{1}}, OCSPResponse: []byte{2}}}
+		if err := chain.Write(&buf); err != nil || buf.Len() < 3 || buf.Bytes()[1]>>5 != 3 || buf.Bytes()[1]&0x1f >= 24 {
+			return nil, false
+		}
+		n := int(buf.Bytes()[1] & 0x1f)
+		return buf.Bytes()[2 : 2+n], true
 	case "p_mi_draft02":
 		return []byte(mice.Draft02Encoding), true
 	case "p_mi_draft03":
@@ -159,10 +170,61 @@ func dynStrings(repo, name string) (ss []string, ok bool) {
 	return nil, false
 }
 
-func dynInt(repo, name string) (int64, bool) {
+// largest n in [lo, hi] with ok(n) (ok is monotone: true up to the limit, false above)
+func largestAccepted(lo, hi int, ok func(int) bool) (int64, bool) {
+	if !ok(lo) || ok(hi) {
+		return 0, false
+	}
+	for lo+1 < hi {
+		mid := (lo + hi) / 2
+		if ok(mid) {
+			lo = mid
+		} else {
+			hi = mid
+		}
+	}
+	return int64(lo), true
+}
+
+func dynInt(repo, name string) (v int64, ok bool) {
+	defer func() {
+		if recover() != nil {
+			ok = false
+		}
+	}()
 	switch name {
 	case "p_sxg_header_magic_len":
 		return int64(sver.HeaderMagicBytesLen), true
+	case "p_max_signature_header_len": // the longest Signature header value Exchange.Write takes (b3)
+		return largestAccepted(1, 1<<24, func(n int) bool {
+			h := http.Header{}
+			h.Add("Content-Type", "text/plain")
+			e := sxg.NewExchange(sver.Version1b3, "https://example.com/", "GET", http.Header{}, 200, h, nil)
+			e.SignatureHeaderValue = strings.Repeat("a", n)
+			return e.Write(io.Discard) == nil
+		})
+	case "p_max_header_len": // the longest CBOR header block Exchange.Write takes (b3)
+		base := func(n int) (*sxg.Exchange, int) {
+			h := http.Header{}
+			h.Add("X", strings.Repeat("v", n))
+			e := sxg.NewExchange(sver.Version1b3, "https://example.com/", "GET", http.Header{}, 200, h, nil)
+			e.SignatureHeaderValue = "l"
+			var b bytes.Buffer
+			e.DumpExchangeHeaders(&b)
+			return e, b.Len()
+		}
+		n, ok := largestAccepted(1, 1<<24, func(n int) bool { e, _ := base(n); return e.Write(io.Discard) == nil })
+		if !ok {
+			return 0, false
+		}
+		_, l := base(int(n))
+		return int64(l), true
+	case "p_max_sct_length": // limit on the serialized list body: the longest single SCT accepted, plus its 2-byte length
+		n, ok := largestAccepted(1, 1<<20, func(n int) bool {
+			_, err := certurl.SerializeSCTList([][]byte{make([]byte, n)})
+			return err == nil
+		})
+		return n + 2, ok
 	}
 	return 0, false
 }
